@@ -64,10 +64,10 @@ pub struct Choices {
 
 impl Choices {
     pub fn seeded(seed: u64) -> Self {
-        Choices { rng: Rng::new(seed), replay: None, pos: 0, rec: Vec::with_capacity(256), limit: 2_000_000, exhausted: false }
+        Choices { rng: Rng::new(seed), replay: None, pos: 0, rec: Vec::with_capacity(256), limit: 4_000_000, exhausted: false }
     }
     pub fn replay(v: Vec<u32>) -> Self {
-        Choices { rng: Rng::new(0), replay: Some(v), pos: 0, rec: Vec::with_capacity(256), limit: 2_000_000, exhausted: false }
+        Choices { rng: Rng::new(0), replay: Some(v), pos: 0, rec: Vec::with_capacity(256), limit: 4_000_000, exhausted: false }
     }
     pub fn draw(&mut self, n: u32) -> u32 {
         if n <= 1 {
